@@ -220,6 +220,13 @@ func runC16(w *World, r *Report) {
 		}
 	}
 
+	// what a caller is sent was assembled for that caller alone: a response built in storage that the next request reuses
+	// is overwritten before it is serialised (gRPC marshals after the handler and its defers returned)
+	r.rule("responses-built-in-private-storage", "no notary handler (nor a helper it calls) uses package-level mutable state — pools, scratch buffers, memo tables — while assembling its response", 8)
+	for _, h := range handlersOf(w)["NotaryAPIServer"] {
+		statelessObligation(w, r, "responses-built-in-private-storage", h)
+	}
+
 	// taking a transaction out of awaiting is the gate to sealing it: it must happen exactly once
 	r.rule("removal-atomic", "RemoveAwaitedTransaction reads, checks and deletes the entry under one exclusive lock and fails when the entry is already gone (so of several overlapping confirm/reject calls only one seals)", 2)
 	if f := w.fx(r, "cache", "Hippocampus", "RemoveAwaitedTransaction"); f != nil {
